@@ -111,7 +111,7 @@ def build(cfg):
         def compile_h(src):
             o = os.path.join(d, "sim_" + os.path.basename(src)[:-4] + ".o")
             run([cxx, "-std=c++17", "-c", "-Wall", "-Wno-unused-function", "-I" + os.path.join(REPO, "include"), "-I" + os.path.join(VERIF, "sim"),
-                 '-DPOLYSIM_CFG="%s"' % cfg] + hflags + [src, "-o", o])
+                 '-DPOLYSIM_CFG="%s"' % cfg] + ([] if "-DNDEBUG" in libflags else ["-DPOLYSIM_LIB_ASSERTS=1"]) + hflags + [src, "-o", o])
             return o
 
         with ThreadPoolExecutor(16) as ex:
